@@ -160,6 +160,9 @@ type Env struct {
 	log   []string
 	notes []string
 	viol  []Violation
+	// RuleRename: a scenario hosted by another property reports under that property's rule names
+	// (prefix old -> prefix new)
+	RuleRename [2]string
 	// NoAutoRacy: the scenario guarantees that a replaced reader loop comes back to an empty queue
 	NoAutoRacy bool
 	vmu        sync.Mutex
@@ -309,6 +312,9 @@ func (e *Env) Stub(c ...string) {
 // oracle that reports while it holds e.mu cannot wedge the run (that mistake turned violations into harness
 // trouble twice).
 func (e *Env) Violate(rule, sig, format string, a ...any) {
+	if e.RuleRename[0] != "" && strings.HasPrefix(rule, e.RuleRename[0]) {
+		rule = e.RuleRename[1] + strings.TrimPrefix(rule, e.RuleRename[0])
+	}
 	if e.RulePrefix != "" && !strings.HasPrefix(rule, e.RulePrefix) {
 		return
 	}
